@@ -34,6 +34,8 @@ def item_widget(k):
         def render(self, width):
             super().render(width)
             self.write("w")
+    if k % 5 == 0:
+        return TextWidget("")         # an item that renders to no line at all: its number is displayed all the same
     if k % 3 == 1:
         return Plain()
     if k % 3 == 2:
@@ -82,16 +84,33 @@ def impl_case(case):
         c.key_pattern = final
     key = case["key"]
     k = key[1] if isinstance(key, list) else key
+    # the container inside containers that do NOT number their items (a window; a list with numbering switched off): such a
+    # container never selects anything, whatever it holds (C14_numbering_off)
+    outer_says = None
+    if len(case["items"]) % 2 == 0:
+        win = WindowContainer("outer"); win.add(TextWidget("plain")); win.add(c)
+        lst = ListRowContainer(2, numbering=False); lst.add(TextWidget("plain")); lst.add(c)
+        for outer in (win, lst):
+            r = outer.process_user_input(k)
+            if r is not False or fired:
+                outer_says = "?a container that does not number its items answered %r for key %r and fired %r" % (r, k, fired)
+                break
     handled = c.process_user_input(k)
     labels = []
     if c.key_pattern is not None:
         # what is DISPLAYED next to each item: read it off the rendered container (one item "w" per row)
         c.render(80)
         lines = c.get_lines()
-        if len(lines) == len(case["items"]) and all(l.endswith("w") for l in lines):
-            labels = [cps(l[:-1]) for l in lines]
+        empty = [d % 5 == 0 for cb, d in case["items"]]
+        if len(lines) == len(case["items"]) and all(e or l.endswith("w") for e, l in zip(empty, lines)):
+            # an empty item's line is its label alone (trailing blanks are not part of a rendered line)
+            want = [case["prefix"] + str(case["offset"] + i) + case["suffix"] for i in range(len(lines))]
+            labels = [cps(l[:-1]) if not e else (cps(w_) if l == w_.rstrip() else cps("?label of an empty item: %r" % l))
+                      for e, l, w_ in zip(empty, lines, want)]
         else:
             labels = [cps("?unexpected render: %r" % (lines[:3],))]
+    if outer_says:
+        labels = [cps(outer_says)]
     return [1 if handled is True else (0 if handled is False else 2), fired, labels]
 
 
